@@ -260,6 +260,65 @@ def run(prog, rep, tier):
             rep.violation(R61, w + "|incomplete", "%s: does not contain all three protocol sends (%s)" % (w, counts))
     rep.exhaustive.append("R6.1: typestate fixpoint over every CFG path of the four worker functions")
 
+    # ------------------------------------------------------------ R6.7 worker loops drain their reader
+    R67 = rep.rule("R6.7", "every worker's message loop ends only on its reader's own Done/Err (text: or on the last message of the file)")
+    READER_CALLS = {
+        "s4::exec_syslogprocessor": ("find_sysline_between_datetime_filters",),
+        "s4::exec_fixedstructprocessor": ("process_entry_at",),
+        "s4::exec_evtxprocessor": ("next",),
+        "s4::exec_journalprocessor": ("next",),
+    }
+    import decide as _d
+    for w in dispatched:
+        wb_ = prog.body(w)
+        names_ = READER_CALLS.get(w)
+        if not names_:
+            continue
+        rc_ = [c for c in wb_.live_calls() if c.d.split("::")[-1] in names_ and c.d.startswith("s4lib::readers::") and any(c.bb in wb_.loop_blocks(h_) for t_, h_ in wb_.back_edges())]
+        if not rc_:
+            raise CheckerError("%s: reader call in a loop not found" % w)
+        rcall = rc_[-1]
+        hh = min([h_ for t_, h_ in wb_.back_edges() if rcall.bb in wb_.loop_blocks(h_)], key=lambda x: len(wb_.loop_blocks(x)))
+        WL_ = wb_.loop_blocks(hh)
+        bad_ = []
+        nex_ = 0
+        for x in sorted(WL_):
+            for s_ in wb_.succ[x]:
+                if s_ in WL_ or wb_.term(s_)[0] == "unreachable":
+                    continue
+                nex_ += 1
+                okx = False
+                if wb_.term(x)[0] == "switch":
+                    sd = _d.switch_decisions(wb_, x)
+                    if sd:
+                        for tgt, d in sd:
+                            if tgt != s_:
+                                continue
+                            if d[0] in ("variant", "variant_not") and d[1][0] == "call" and d[1][1] == rcall.d.split("::")[-1]:
+                                okx = True
+                            # text logs are served in file order: the reader's own "this is the last message" may end the loop
+                            if w.endswith("exec_syslogprocessor") and d[0] == "flag" and d[1][0] == "call" and d[1][1] == "is_sysline_last" and d[2] is True:
+                                okx = True
+                if not okx and w.endswith("exec_syslogprocessor") and wb_.term(x)[0] == "switch":
+                    # `if is_last { assert!(..); break }` : the assert's own branch sits between
+                    srcs = set()
+                    for xx in wb_.origins(wb_.term(x)[1], through_calls=("::not",)):
+                        srcs.add(xx[0])
+                    dom_flag = False
+                    for bb2 in sorted(WL_):
+                        if wb_.term(bb2)[0] == "switch":
+                            sd2 = _d.switch_decisions(wb_, bb2)
+                            if sd2:
+                                for tgt2, d2 in sd2:
+                                    if d2[0] == "flag" and d2[1][0] == "call" and d2[1][1] == "is_sysline_last" and d2[2] is True and wb_.dominates(tgt2, x) and tgt2 != bb2:
+                                        dom_flag = True
+                    okx = dom_flag
+                if not okx:
+                    bad_.append((x, wb_.blocks[x].get("l")))
+        rep.examined(R67, w + "|loop-exits", sample={"worker": w, "reader_call": rcall.d.split("::")[-2:], "loop_exits": nex_, "foreign_exits": bad_})
+        if bad_:
+            rep.violation(R67, w + "|loop-exits", "%s: the message loop can end (line %s) on a condition other than its reader reporting Done/Err; messages the reader would still deliver are never sent" % (w, bad_[0][1]))
+
     # ------------------------------------------------------------ R6.2 (re-run the C01 rules on the same facts)
     b = prog.body(PL)
 
